@@ -56,6 +56,22 @@ def A(name):
     return r
 
 
+def Q4_leaks(ctx, R):
+    """Q4 restricted to its `leak` clause (C03): after a panicking raw operation the call unwinds - and the key comes back -
+    with a lock still held.  The other clauses of Q4 (stray releases, locks killed needlessly) are C05/C12 matters."""
+    import rules_alg, copy
+    full = rules_alg.rule_Q4(ctx, R)
+    res = copy.copy(full)
+    res.violations = [v for v in full.violations if str(v.site).startswith(("leak:", "UNDECIDED", "FLOOR"))]
+    keep = set(id(v) for v in res.violations)
+    res.instances = [(i, verdict) for (i, verdict) in full.instances if verdict == "ok"] + \
+        [(v.site, "VIOLATION") for v in res.violations]
+    return res
+
+
+Q4_leaks.__name__ = "rule_Q4"
+
+
 def run(pid, tier, t0):
     if pid not in P:
         print("unknown property %s" % pid)
@@ -138,7 +154,7 @@ prop("C02",
      "contract plus these rules, by argument not by check).")
 
 prop("C03",
-     [ts2.rule_R1, sig.rule_R2, LEAK_SCOPED, ts2.rule_R3key, ts2.rule_R4, ts2.rule_R5, ts.rule_M4, A("rule_E5"), A("rule_Y3"), st.rule_M5, ts2.rule_R6, st.rule_X1, ts2.rule_R7, sig.rule_S3, ts2.rule_K1, cg.rule_K2],
+     [ts2.rule_R1, sig.rule_R2, LEAK_SCOPED, ts2.rule_R3key, ts2.rule_R4, ts2.rule_R5, ts.rule_M4, A("rule_E5"), A("rule_Y3"), st.rule_M5, ts2.rule_R6, st.rule_X1, ts2.rule_R7, sig.rule_S3, ts2.rule_K1, cg.rule_K2, Q4_leaks, ts2.rule_R8],
      "R1 unlock-style APIs release every lock of the consumed guard before returning its key; R2 key field declared after hold "
      "fields in every guard (drop order); R3 scoped calls hold nothing at return and at every unwinding exit; R3k the key outlives "
      "the closure; R4 a failed try returns Err(key) holding nothing and without running user code; R5 guard-returning APIs move the "
@@ -148,7 +164,8 @@ prop("C03",
      "leaf try reports exactly what the raw try did (a `false` while the raw lock was taken hands the key back with the lock held); "
      "R7/S3 only functions that take the key by value may return holding a lock; no API takes a reference to the key instead; "
      "K1/K2 the key these rules follow is the only one: a second, transient or stand-in ThreadKey built anywhere re-arms the "
-     "thread's flag when it is dropped and hands the thread a key while its guard is still alive.",
+     "thread's flag when it is dropped and hands the thread a key while its guard is still alive; Q4 (leak clause) after a "
+     "panicking raw operation the collection call unwinds with nothing held (bounded data model, see C12).",
      "the single-thread history enumeration itself (the rules are per-API invariants that make every history safe).")
 
 prop("C04",
@@ -177,9 +194,11 @@ prop("C06",
      "agreement with a reference model over API histories (the rules are the invariants such a model would check).")
 
 prop("C14",
-     [sig.rule_K3, sig.rule_S1, sig.rule_S2, sig.rule_S3, sig.rule_S5, sig.rule_A4, ts2.rule_R6, ts2.rule_R7, W("C14")],
+     [sig.rule_K3, sig.rule_S1, sig.rule_S2, sig.rule_S3, sig.rule_S5, sig.rule_A4, ts2.rule_R6, ts2.rule_R7, ts2.rule_R8, W("C14")],
      "Universal signature rules over every function/impl of the crate (impl table of the key, private fields of key carriers, "
-     "key conservation at signature level, no reference-to-key APIs, no replaceable guard payload behind &mut, unsafe markers) "
+     "key conservation at signature level, no reference-to-key APIs, no replaceable guard payload behind &mut, unsafe markers), "
+     "R6/R7/R8 path rules (holds never outlive the key of their carrier; only owners of the key return holding; no user code "
+     "between giving the key up and releasing the locks) "
      "plus a corpus of offending client programs that the real compiler must reject, each with a compiling twin.",
      "programs outside the corpus are covered only as far as the universal rules capture the escape routes.",
      thorough_rules=[W("C14", "nightly")])
@@ -231,13 +250,14 @@ prop("C10",
      "the history model (re-poison after clear, cross-thread visibility beyond Relaxed atomics).")
 
 prop("C11",
-     [ts2.rule_G1, ts2.rule_G2, LEAK_SCOPED, ts2.rule_R3key, st.rule_M1, sig.rule_R2, ts.rule_M4, ts2.rule_E4r, st.rule_M2, LEAK_ALL, cg.rule_K4],
+     [ts2.rule_G1, ts2.rule_G2, LEAK_SCOPED, ts2.rule_R3key, st.rule_M1, sig.rule_R2, ts.rule_M4, ts2.rule_E4r, st.rule_M2, LEAK_ALL, cg.rule_K4, sig.rule_D2],
      "G1 handle_unwind is catch -> handler -> resume (no swallowed panic, handler only on unwind); G2 catch_unwind is used nowhere "
      "else; G3 every scoped function holds nothing at every unwinding exit (its handler releases the acquired receiver once, in "
      "mode); G4 RAII holds release in Drop and the key field drops after them; G5 the key is still owned by the frame while the "
      "closure runs; M2 every release op of a leaf lock reaches its raw lock on every path (also when the lock has been killed); "
      "K4 a key a function makes itself (flag moved out of its free state) is either in the returned value or given up again on "
-     "every exit, unwinding exits included.",
+     "every exit, unwinding exits included; D2 no field that can own a hold or a key has its destructor switched off "
+     "(ManuallyDrop / MaybeUninit without a Drop impl): whatever a panic drops is really dropped.",
      "progress of waiting threads (schedules).")
 
 prop("C12",
@@ -256,10 +276,12 @@ prop("C13",
      "the raw lock's own exactness (try succeeds iff free) and the enumeration over held patterns.")
 
 prop("C16",
-     [st2.rule_H1, st2.rule_H2, pos.rule_P1, pos.rule_H4],
+     [st2.rule_H1, st2.rule_H2, pos.rule_P1, pos.rule_H4, pos.rule_H5],
      "H1 heap-cell ownership typestate of the boxed collection (one from_raw per cell, forget after into_child, rejected try_new "
      "drops); H2 no other leak/duplication primitive; H3 MaybeUninit arrays written at equal source/destination index over 0..N and "
-     "finalised once (in P1); H4 accessors/consumers return their own stored data at the declared positions.",
+     "finalised once (in P1); H4 accessors/consumers return their own stored data at the declared positions; H5 a by-value "
+     "argument of a user-chosen type (data of new/from, iterator of extend/from_iter) is never destroyed on a returning path of "
+     "a function that cannot refuse it.",
      "drop counts when user Drop/Default/Debug code itself panics; values observed after writes (follows from C02).")
 
 prop("C17",
